@@ -85,11 +85,20 @@ func (fe *FuncEnc) epochVar(name, srt string, ep *Epoch) string {
 		for i, s := range ep.srcs {
 			terms[i] = fe.epochVar(name, srt, s.ep)
 		}
-		acc := terms[len(terms)-1]
-		for i := len(terms) - 2; i >= 0; i-- {
-			acc = ite(ep.srcs[i].cond, terms[i], acc)
+		// a fresh constant tied to the source versions by guarded equations:
+		// keeps heap terms atomic (usable in quantifier patterns)
+		t = fe.sc.declare(key, srt)
+		for i := range terms {
+			c := ep.srcs[i].cond
+			if i == len(terms)-1 {
+				var others []string
+				for _, s := range ep.srcs[:i] {
+					others = append(others, s.cond)
+				}
+				c = not(or(others...))
+			}
+			fe.sc.assertFor(t, implies(c, eq(t, terms[i])))
 		}
-		t = fe.sc.define(key, srt, acc)
 	}
 	fe.epochMemo[key] = t
 	return t
@@ -206,10 +215,23 @@ func (fe *FuncEnc) merge(sts []*State) *State {
 	for _, n := range sortedKeys(names) {
 		srt := fe.heapSorts[n]
 		var ts []string
+		same := true
 		for _, s := range sts {
-			ts = append(ts, fe.heapGet(s, n, srt))
+			ts = append(ts, fe.heapGetQuiet(s, n, srt))
+			if ts[len(ts)-1] != ts[0] {
+				same = false
+			}
 		}
-		res.heap[n] = pick(ts, srt, n)
+		if same {
+			res.heap[n] = ts[0]
+			continue
+		}
+		// fresh constant + guarded equations (keeps heap terms atomic for patterns)
+		h := fe.sc.declare(n, srt)
+		for i, s := range sts {
+			fe.sc.assertFor(h, implies(s.pc, eq(h, ts[i])))
+		}
+		res.heap[n] = h
 	}
 	// locals
 	allocs := map[*ssa.Alloc]bool{}
